@@ -31,6 +31,9 @@ func IndexTable(db objects.Store, tblSum []byte, tbl *objects.Table, logger logr
 		if err != nil {
 			return fmt.Errorf("GetBlock: %v", err)
 		}
+		if len(blk) == 0 {
+			return fmt.Errorf("block %x has no rows", sum)
+		}
 		if len(tbl.PK) > 0 {
 			tblIdx[i] = slice.IndicesToValues(blk[0], tbl.PK)
 		} else {
